@@ -253,4 +253,39 @@ def pktMarshal (p : Packet) : Res Bytes :=
 def hdrClone (h : Header) : Header := h
 def pktClone (p : Packet) : Packet := p
 
+/-! ### the deprecated fields `Packet.Raw` and `Header.PayloadOffset`
+
+  No function of packet.go reads or writes either (Unmarshal, MarshalSize, MarshalTo, Marshal and
+  String never touch them; a caller may still set them by hand).  The only thing that happens to
+  them: `Header.Clone` starts from the struct copy `clone := h`, which carries `PayloadOffset`
+  over, and `Packet.Clone` starts from `&Packet{}` and fills Header, Payload and PaddingSize —
+  so the clone's `Raw` is nil.  They are carried beside the packet value (`PacketD`) rather than
+  inside `Packet`, so that what reads a `Packet` provably cannot depend on them. -/
+
+structure Deprecated where
+  raw : Option Bytes := none     -- `Packet.Raw` (none = nil)
+  payloadOffset : Nat := 0       -- `Header.PayloadOffset`
+  deriving DecidableEq, Repr, Inhabited
+
+/-- the whole state of a `Packet` variable: the value the API works on and the deprecated pair -/
+structure PacketD where
+  pkt : Packet := {}
+  dep : Deprecated := {}
+  deriving DecidableEq, Repr, Inhabited
+
+/-- `Header.Clone` on the whole state: (header, PayloadOffset) — both copied -/
+def hdrCloneD (h : Header) (po : Nat) : Header × Nat := (hdrClone h, po)
+
+/-- `Packet.Clone` on the whole state: PayloadOffset copied with the header, Raw dropped -/
+def pktCloneD (p : PacketD) : PacketD :=
+  { pkt := pktClone p.pkt, dep := { raw := none, payloadOffset := (hdrCloneD p.pkt.header p.dep.payloadOffset).2 } }
+
+/-- `Packet.Marshal` / `MarshalSize` on the whole state: the deprecated pair is not read -/
+def pktMarshalD (p : PacketD) : Res Bytes := pktMarshal p.pkt
+def pktMarshalSizeD (p : PacketD) : Nat := pktMarshalSize p.pkt
+
+/-- `Packet.Unmarshal` on the whole state: the deprecated pair is neither read nor written -/
+def pktUnmarshalD (r : PacketD) (buf : Bytes) : Res PacketD :=
+  (pktUnmarshal r.pkt buf).map fun q => { pkt := q, dep := r.dep }
+
 end Rtp.Model
